@@ -717,7 +717,7 @@ func foldsLeaves(info *types.Info, cc *ast.CaseClause) []ast.Expr {
 
 // E3RayHull decides the pre-filter hull rules of Path.RayIntersections (C06).
 func E3RayHull(c *core.Ctx, r *core.Report) {
-	r.Rule("E3.ray-hull", "RayIntersections: in each curve case the pre-filter `Interval(y, lo, hi) && x <= xhi+Epsilon` uses lo = Min-tree, hi = Max-tree over the Y of start, end and every decoded control point, and xhi = Max-tree over the same points' X (arc: centre∓max(rx,ry))")
+	r.Rule("E3.ray-hull", "RayIntersections: in each curve case the pre-filter `Interval(y, lo, hi) && x <= xhi+Epsilon` uses lo = Min-tree, hi = Max-tree over the Y of start, end and every decoded control point, and xhi = Max-tree over the same points' X (arc: centre∓B with B = math.Max over the two decoded radii, or the exact rotated half-extents math.Hypot(rx·cos φ, ry·sin φ) on x / math.Hypot(rx·sin φ, ry·cos φ) on y; a maximum of the two products instead of their root-sum-square is too small at oblique rotations)")
 	p := c.MustPkg("")
 	info := p.TypesInfo
 	fd := core.MustFuncDecl(p, "Path.RayIntersections")
@@ -797,25 +797,107 @@ func E3RayHull(c *core.Ctx, r *core.Report) {
 			continue
 		}
 		if hasCallTo(info, cc, "ellipseToCenter") {
-			// arc: lo = cy - M, hi = cy + M, xhi = cx + M, M = math.Max(rx, ry)
-			isCM := func(e ast.Expr, op token.Token) (string, bool) {
+			// arc: lo = cy - B, hi = cy + B, xhi = cx + B' with B, B' sound bounds of the rotated ellipse's
+			// half-extents: math.Max(rx, ry) over the two decoded radii (record offsets 1 and 2), or the exact
+			// extents math.Hypot(rx*cos, ry*sin) on x and math.Hypot(rx*sin, ry*cos) on y.
+			radius := func(e ast.Expr) int { // 1 = rx, 2 = ry, 0 = neither
+				id, ok := core.Unparen(e).(*ast.Ident)
+				if !ok {
+					return 0
+				}
+				d, ok := defs[id.Name]
+				if !ok {
+					return 0
+				}
+				ie, _, ok := dataIndex(info, core.Unparen(d))
+				if !ok {
+					return 0
+				}
+				if _, k, ok := linForm(info, ie.Index); ok && (k == 1 || k == 2) {
+					return k
+				}
+				return 0
+			}
+			trig := func(e ast.Expr) string { // "sin" | "cos" | ""
+				if name, call := core.MathFunc(info, e); call != nil && (name == "Sin" || name == "Cos") {
+					return strings.ToLower(name)
+				}
+				id, ok := core.Unparen(e).(*ast.Ident)
+				if !ok {
+					return ""
+				}
+				// sinphi, cosphi := math.Sincos(phi)
+				for _, st := range cc.Body {
+					as, ok := st.(*ast.AssignStmt)
+					if !ok || len(as.Lhs) != 2 || len(as.Rhs) != 1 {
+						continue
+					}
+					if name, call := core.MathFunc(info, as.Rhs[0]); call != nil && name == "Sincos" {
+						for i, l := range as.Lhs {
+							if lid, ok := l.(*ast.Ident); ok && core.ObjOf(info, lid) == core.ObjOf(info, id) {
+								return []string{"sin", "cos"}[i]
+							}
+						}
+					}
+				}
+				if d, ok := defs[id.Name]; ok {
+					if name, call := core.MathFunc(info, d); call != nil && (name == "Sin" || name == "Cos") {
+						return strings.ToLower(name)
+					}
+				}
+				return ""
+			}
+			// bound classifies B: "max" (Max(rx,ry)), "hypot-x", "hypot-y" or ""
+			bound := func(e ast.Expr) string {
+				e = resolve(e)
+				if t := minmaxTree(info, e); t != nil {
+					if t.op == "Max" && len(t.mixed) == 0 && len(t.leaves) == 2 && radius(t.leaves[0])*radius(t.leaves[1]) == 2 {
+						return "max"
+					}
+					return ""
+				}
+				if name, call := core.MathFunc(info, e); call != nil && name == "Hypot" && len(call.Args) == 2 {
+					pair := func(a ast.Expr) (int, string) {
+						m, ok := core.Unparen(a).(*ast.BinaryExpr)
+						if !ok || m.Op != token.MUL {
+							return 0, ""
+						}
+						if r := radius(m.X); r != 0 {
+							return r, trig(m.Y)
+						}
+						return radius(m.Y), trig(m.X)
+					}
+					r1, t1 := pair(call.Args[0])
+					r2, t2 := pair(call.Args[1])
+					if r1*r2 == 2 && t1 != "" && t2 != "" && t1 != t2 {
+						rxTrig := t1
+						if r1 == 2 {
+							rxTrig = t2
+						}
+						if rxTrig == "cos" {
+							return "hypot-x"
+						}
+						return "hypot-y"
+					}
+				}
+				return ""
+			}
+			isCM := func(e ast.Expr, op token.Token) (string, string) {
 				b, ok := resolve(e).(*ast.BinaryExpr)
 				if !ok || b.Op != op {
-					return "", false
+					return "", ""
 				}
-				t := minmaxTree(info, resolve(b.Y))
-				if t == nil || t.op != "Max" || len(t.mixed) > 0 || len(t.leaves) != 2 || leafKey(t.leaves[0]) == leafKey(t.leaves[1]) {
-					return "", false
-				}
-				return types.ExprString(b.X), true
+				return types.ExprString(b.X), bound(b.Y)
 			}
-			cl, ok1 := isCM(lo, token.SUB)
-			ch, ok2 := isCM(hi, token.ADD)
-			cx, ok3 := isCM(xhi, token.ADD)
-			if ok1 && ok2 && ok3 && cl == ch && cx != cl {
-				r.OK("E3.ray-hull", base+"|arc", c.Pos(guard.Pos()), "cy∓max(rx,ry), cx+max(rx,ry)")
+			cl, b1 := isCM(lo, token.SUB)
+			ch, b2 := isCM(hi, token.ADD)
+			cx, b3 := isCM(xhi, token.ADD)
+			yOK := b1 != "" && b1 == b2 && (b1 == "max" || b1 == "hypot-y")
+			xOK := b3 == "max" || b3 == "hypot-x"
+			if yOK && xOK && cl != "" && cl == ch && cx != "" && cx != cl {
+				r.OK("E3.ray-hull", base+"|arc", c.Pos(guard.Pos()), "centre ∓ "+b1+" on y, centre + "+b3+" on x")
 			} else {
-				r.Fail("E3.ray-hull", base+"|arc", c.Pos(guard.Pos()), "arc pre-filter is not centre∓max(rx,ry) on y and centre+max(rx,ry) on x")
+				r.Fail("E3.ray-hull", base+"|arc", c.Pos(guard.Pos()), "arc pre-filter is not centre∓B on y and centre+B' on x with B, B' a recognised sound bound of the rotated ellipse's half-extents: math.Max(rx, ry) over the two decoded radii, or math.Hypot(rx*cos φ, ry*sin φ) on x and math.Hypot(rx*sin φ, ry*cos φ) on y (any smaller bound skips arcs the ray crosses)")
 			}
 			continue
 		}
